@@ -278,10 +278,12 @@ class ResourceMap:
         supermap).
         """
         # Before scrapping everything, update their parent information
-        for handle in self.handles.values():
-            if handle.parent == self:
-                handle.parent = None
-                handle.key = None
+        # Handles may be layered (see ChainMap), consider all layers
+        for handles_layer in self.handles.maps:
+            for handle in handles_layer.values():
+                if handle.parent == self:
+                    handle.parent = None
+                    handle.key = None
 
         for map_ in self.maps.values():
             if map_.parent == self:
@@ -289,7 +291,8 @@ class ResourceMap:
                 map_.key = None
 
         self.maps.clear()
-        self.handles.clear()
+        for handles_layer in self.handles.maps:
+            handles_layer.clear()
 
     def get_static_map(self) -> StaticResourceMap:
         """Generate a static map for convenience resource access.
